@@ -353,6 +353,14 @@ def validate_before_decode(ctx):
             expected="shared containers (CBOR tags 28/29) are rejected: every re-serialization would expand them again "
                      "(254 bytes -> 870 MB on the unrepaired tree)", found=found)
 
+    # the walk over the decoded item visits every item: a break / return inside it lets everything still pending through unexamined
+    seen_walks = set()
+    for g in guards:
+        for gf in g:
+            if hasattr(gf, "node") and gf.fq not in seen_walks and (_is_sharing_guard(ctx, gf) or _refuses_snan(ctx, gf)):
+                seen_walks.add(gf.fq)
+                generic.loops_run_to_end(ctx, "C17-D7b the guard walks the whole decoded item", gf, {"pop", "append", "extend", "popleft"}, "items of the decoded value", floor=0)
+
     # ---- D4b: validate_cbor rejects the empty input and a declared length beyond the input
     R.rule("C17-D4b length pre-validation", 2, "empty input and over-long declared lengths are rejected before decoding")
     # the length decoder: SuitObject.decode_cbor_length, or the function it merely hands its arguments on to (moved elsewhere)
